@@ -13,6 +13,10 @@
 (*   <<"inline", typeCondition | "", selections, included>>                *)
 (*   <<"spread", fragmentName, included>>                                  *)
 (*   (included = FALSE stands for @skip(if: true) / @include(if: false))   *)
+(*   A selection may instead carry its directives: one more element BEFORE *)
+(*   `included`, a sequence of <<"skip" | "include", <<"lit", b>> |        *)
+(*   <<"var", name>>>>; `included` is then ignored and inclusion is decided *)
+(*   by DirectivesInclude over VarValues (CollectFields steps 3.a, 3.b).    *)
 (* Resolver world: typeName -> fieldName -> outcome, outcome is            *)
 (*   <<"null">> | <<"err">> | <<"int", n>> | <<"bigint">> | <<"float">>    *)
 (*   | <<"str", s>> | <<"bool", b>> | <<"obj", typeName>> | <<"list", seq>> *)
@@ -21,7 +25,8 @@
 (***************************************************************************)
 EXTENDS Naturals, Sequences, FiniteSets
 
-CONSTANTS Schema, Fragments, World
+CONSTANTS Schema, Fragments, World,
+          VarValues    \* coerced variable values read by @skip / @include: name -> BOOLEAN
 
 Null == <<"null">>
 IsNonNull(t) == t[1] = "nonnull"
@@ -58,12 +63,19 @@ AddField(groups, f) ==
   LET k == IndexOfKey(groups, f[2]) IN
     IF k = 0 THEN Append(groups, <<f[2], <<f>>>>) ELSE [groups EXCEPT ![k] = <<f[2], Append(groups[k][2], f)>>]
 
+\* @skip / @include: skipped when @skip's `if` is true or @include's `if` is not true, whichever directives are
+\* present and in whatever order; a variable stands for its coerced value (a default counts, section 6.1.2)
+BaseArity(s) == CASE s[1] = "field" -> 5 [] s[1] = "inline" -> 4 [] OTHER -> 3
+CondValue(c) == IF c[2][1] = "lit" THEN c[2][2] ELSE VarValues[c[2][2]]
+DirectivesInclude(conds) == \A k \in 1..Len(conds) : IF conds[k][1] = "skip" THEN ~CondValue(conds[k]) ELSE CondValue(conds[k])
+Included(s) == IF Len(s) = BaseArity(s) + 1 THEN DirectivesInclude(s[Len(s) - 1]) ELSE s[Len(s)]
+
 RECURSIVE Collect(_, _, _, _)
 \* returns <<groups, visitedFragments>>
 Collect(objType, sels, groups, visited) ==
   IF sels = <<>> THEN <<groups, visited>>
   ELSE LET s == Head(sels) rest == Tail(sels) IN
-       IF ~s[Len(s)] THEN Collect(objType, rest, groups, visited)            \* @skip / @include
+       IF ~Included(s) THEN Collect(objType, rest, groups, visited)            \* @skip / @include
        ELSE CASE s[1] = "field" -> Collect(objType, rest, AddField(groups, s), visited)
               [] s[1] = "spread" ->
                    IF s[2] \in visited \/ s[2] \notin DOMAIN Fragments THEN Collect(objType, rest, groups, visited)
